@@ -6,6 +6,9 @@ import Dmn.Lemmas.DrgSpec
 import Dmn.Lemmas.DrgService
 import Dmn.Lemmas.DrgContext
 import Dmn.Lemmas.DrgBuild
+import Dmn.Lemmas.DrgTable
+import Dmn.Props.C03
+import Dmn.Props.C11
 import Dmn.Lemmas.EvalM
 
 /-!
@@ -16,10 +19,13 @@ Model: `Dmn/Model/Drg.lean` (what the code does: `graphStep` = one closure of ea
 services, `evaluateInvocable`), `Dmn/Model/DrgSpec.lean` (what the property prescribes).
 Lemmas: `Dmn/Lemmas/Drg.lean` (non-interference invariant), `DrgFuel.lean` (ranked graphs),
 `DrgSpec.lean` (model = specification), `DrgContext.lean` (lookups in the evaluation context),
-`DrgService.lean` (output loop).
+`DrgService.lean` (output loop), `DrgTable.lean` (shape of evaluated decision tables); the decision
+table and item definition models are those of C03 / C11 (`Dmn/Model/DrgTable.lean` connects them).
 
 Theorems: `irrelevant_inputs` (+ per kind) · `eval_invocable_spec` (+ per kind; full strength
-since the repairs of F14 and F28), `decision_context_spec`, `knowledge_model_bound` ·
+since the repairs of F14 and F28), `decision_context_spec`, `knowledge_model_bound`, `table_logic_spec`, `table_decision_spec`
+(decision tables as logic, through C03), `item_typed_variable_spec`,
+`item_typed_variable_conforming` (item definitions, through C11) ·
 `service_outputs` · `graph_bottom_never_reached`, `acyclic_fuel_suffices_ranked`,
 `acyclic_fuel_suffices`, `acyclic_complete` · `built_graph_ranked`, `built_graph_fuel_suffices`,
 `check_requirements_complete` (`check_requirements` of `ModelEvaluator::new`).
@@ -213,7 +219,7 @@ theorem decision_context_spec (g : Drg) (env : Env) (p : Spec.SGraph) (hp : WFP 
     (hk3 : foldCtx (fun id c => dropName (Spec.callDecision g (Spec.graphStep g env p) id [] input c))
       d.reqDecisions (g.serviceFns d.reqKnowledge k1) = .ok k3) :
     Spec.decisionValue g env (Spec.graphStep g env p) d [] input =
-      Spec.coerceResult d.ty.ftype (evalBoxed env d.logic [Spec.decisionContext g d [] input k3]) ∧
+      Spec.coerceResult (d.ty.ftype g.items) (evalBoxed env d.logic [Spec.decisionContext g d [] input k3]) ∧
     ∀ n, Ctx.get (Spec.decisionContext g d [] input k3) n =
       match Spec.decisionBinding g env p [] input n d.reqDecisions with
       | some v => some v
@@ -253,8 +259,85 @@ type — under the model's variable (code and specification alike). -/
 theorem knowledge_model_bound (g : Drg) (env : Env) (gf : Nat) (id : String) (b : Bkm) (input evaluated : Ctx)
     (hf : g.findBkm id = some b)
     (h : (graphAt g env divergeGraph gf).bkm id input [] = .ok evaluated) :
-    Ctx.get evaluated b.var = some (.fn b.params b.body b.ty.ftype) :=
+    Ctx.get evaluated b.var = some (.fn b.params b.body (b.ty.ftype g.items)) :=
   bkm_own_entry g env gf id b input evaluated hf h
+
+/-! ### variables typed by item definitions
+
+An input data element, or the variable of a decision that is an input decision of a decision
+service, whose `typeRef` names an item definition is bound to the entry checked by that
+definition's evaluator — the model of C11 (`Dmn.ID`), whose theorems apply: -/
+
+/-- The value that reaches the logic is the projection C11 specifies (`Spec.project`: the value
+itself when it conforms to the definition — type, components, collection, allowed values —,
+null otherwise; for a collection or component type null as a whole). -/
+theorem item_typed_variable_spec (defs : ID.Defs) (n : ID.Name) (t : ID.ItemDef) (name : String) (c : Ctx)
+    (v : Value) (x : DTValue) (hv : Ctx.get c name = some v) (hx : DT.toDT v = some x)
+    (ht : ID.lookup defs n = some t) :
+    VarTy.check defs (.named n) name c = DT.ofDT (ID.Spec.project defs 63 t x) := by
+  have hs : ∀ f, ID.eval defs (f + 1) n x = some (ID.check defs f t x) := by
+    intro f
+    simp only [ID.eval, ID.evaluator, ht, Option.map_some]
+    rfl
+  have he : ID.eval defs itemFuel n x = some (ID.check defs 63 t x) := hs 63
+  simp only [VarTy.check, hv, hx, he]
+  exact congrArg DT.ofDT (ID.check_eq_spec defs 63 t x)
+
+/-- A conforming value passes unchanged (up to the translation between the value types). -/
+theorem item_typed_variable_conforming (defs : ID.Defs) (n : ID.Name) (t : ID.ItemDef) (name : String) (c : Ctx)
+    (v : Value) (x : DTValue) (hv : Ctx.get c name = some v) (hx : DT.toDT v = some x)
+    (ht : ID.lookup defs n = some t) (hc : ID.Spec.conforms defs 63 t x = true) :
+    VarTy.check defs (.named n) name c = DT.ofDT x := by
+  rw [item_typed_variable_spec defs n t name c v x hv hx ht, ID.project_conforming_id defs 63 t x hc]
+
+/-- Non-vacuity: `tN` = numbers among 1, 2; the entry 2 conforms. -/
+example : ID.lookup ID.exDefs ['t', 'N'] = some (.simple .number (some (fun v => v = .num 1 || v = .num 2))) ∧
+    DT.toDT (.num ⟨false, 2, 0⟩) = some (.num 2) := by
+  refine ⟨rfl, by decide⟩
+
+/-! ### decision tables as logic
+
+`irrelevant_inputs` and `eval_invocable_spec` hold for *every* logic — the boxed kinds, decision
+tables included, are evaluated by the same `evalBoxed` in the model and in the specification.
+What a decision table contributes is its own clause: the value is what the hit policy
+prescribes (`Dmn.DT.Spec.evaluate`, property C03) for the matrix of cells evaluated — as FEEL
+expressions, `In(input expression, input entry)`, `Out(output entry, output values)` — in the
+context of the enclosing element. -/
+
+/-- A decision table evaluates to what its hit policy prescribes for its evaluated cells. -/
+theorem table_logic_spec (env : Env) (hitPolicy : String) (hp : DT.HitPolicy) (inputs outputs rules : List Ast)
+    (s : Scope) (raw : RawTable) (s' : Scope) (t : DT.Table)
+    (hhp : hitPolicyOf hitPolicy = some hp)
+    (hshape : tableShapeOk inputs outputs rules = true)
+    (hc : evalCells env hp inputs outputs rules s = .ok (raw, s'))
+    (ht : raw.toTable = some t) :
+    evalBoxed env (Boxed.table hitPolicy inputs outputs rules) s = .ok (DT.ofDT (DT.Spec.evaluate t), s') := by
+  have hwf := toTable_WF env hp inputs outputs rules s raw s' t hshape hc ht
+  have hev : evalBoxed env (Boxed.table hitPolicy inputs outputs rules) s =
+      evalTable env hitPolicy inputs outputs rules s := by
+    simp only [Boxed.table, evalBoxed]
+  rw [hev]
+  simp only [evalTable, hhp, EvalM.bind_def, hc, EvalM.lift, finishTable, ht, DT.evaluate_eq_spec t hwf]
+
+/-- The clause of `eval_decision_spec` for a decision whose logic is a decision table: its value
+is the hit policy's result for the cells evaluated in the decision's context (`decisionContext`:
+required inputs, required decisions' own values, knowledge as functions — see
+`decision_context_spec`), coerced to the type of the output variable. -/
+theorem table_decision_spec (g : Drg) (env : Env) (p : Spec.SGraph) (d : Decision) (input k1 k3 : Ctx)
+    (hitPolicy : String) (hp : DT.HitPolicy) (inputs outputs rules : List Ast)
+    (raw : RawTable) (s' : Scope) (t : DT.Table)
+    (hlogic : d.logic = Boxed.table hitPolicy inputs outputs rules)
+    (hhp : hitPolicyOf hitPolicy = some hp)
+    (hshape : tableShapeOk inputs outputs rules = true)
+    (hk1 : foldCtx (fun id c => Spec.callBkm g (Spec.graphStep g env p) id c) d.reqKnowledge [] = .ok k1)
+    (hk3 : foldCtx (fun id c => dropName (Spec.callDecision g (Spec.graphStep g env p) id [] input c))
+      d.reqDecisions (g.serviceFns d.reqKnowledge k1) = .ok k3)
+    (hc : evalCells env hp inputs outputs rules [Spec.decisionContext g d [] input k3] = .ok (raw, s'))
+    (ht : raw.toTable = some t) :
+    Spec.decisionValue g env (Spec.graphStep g env p) d [] input =
+      .ok (Value.coerced (d.ty.ftype g.items) (DT.ofDT (DT.Spec.evaluate t))) := by
+  simp only [Spec.decisionValue, hk1, hk3, hlogic,
+    table_logic_spec env hitPolicy hp inputs outputs rules _ raw s' t hhp hshape hc ht, Spec.coerceResult]
 
 /-- exact arithmetic, no built-in functions: the evaluator of the witnesses below -/
 def witnessBase : Env where
@@ -264,6 +347,19 @@ def witnessBase : Env where
   bifNamed := fun _ _ => .ok .null
   iter := Eval.Variant.code.iter
   index := Eval.Variant.code.index
+
+/-- Non-vacuity: a one-rule table `U`, input expression `x`, entry `< 5`, output `1`, default `0`,
+in the scope `{x: 3}` evaluates to 1 and in `{x: 7}` to the default 0. -/
+example :
+    let tbl := Boxed.table "U" [.range (.name "x") Boxed.absent]
+      [.between Boxed.absent Boxed.absent (.expressionList [.numeric "0" ""])]
+      [.contextEntry (.expressionList [.expressionList [.unaryLt (.numeric "5" "")]]) (.expressionList [.numeric "1" ""])]
+    tableShapeOk [.range (.name "x") Boxed.absent]
+      [.between Boxed.absent Boxed.absent (.expressionList [.numeric "0" ""])]
+      [.contextEntry (.expressionList [.expressionList [.unaryLt (.numeric "5" "")]]) (.expressionList [.numeric "1" ""])] = true ∧
+    (evalBoxed witnessBase tbl [[("x", .num ⟨false, 3, 0⟩)]]).map Prod.fst = .ok (.num ⟨false, 1, 0⟩) ∧
+    (evalBoxed witnessBase tbl [[("x", .num ⟨false, 7, 0⟩)]]).map Prod.fst = .ok (.num ⟨false, 0, 0⟩) := by
+  refine ⟨by decide, by rfl, by rfl⟩
 
 /-- `A = 1`, `B = A + 1` (`B` requires `A`) -/
 def witnessF14 : Drg := {
@@ -337,14 +433,14 @@ theorem service_outputs (g : Drg) (env : Env) (prev : Graph) (ha : AnswersVar g 
     (h3 : outputLoop (fun id c => callDecision g prev id (g.serviceInputs s results input)
       (g.serviceInputDecisions s results input) c) s.output [] c1 = .ok (names, c2)) :
     (graphStep g env prev).service id input out =
-        .ok (some s.var, serviceResult s.ty.ftype names c2 s.var out) ∧
+        .ok (some s.var, serviceResult (s.ty.ftype g.items) names c2 s.var out) ∧
     names = g.decisionVarNames s.output ∧
     (∀ n ∈ names, (Ctx.get c2 n).isSome = true) ∧
     (∀ n v, names = [n] → Ctx.get c2 n = some v →
-      Ctx.get (serviceResult s.ty.ftype names c2 s.var out) s.var = some (Value.coerced s.ty.ftype v)) ∧
+      Ctx.get (serviceResult (s.ty.ftype g.items) names c2 s.var out) s.var = some (Value.coerced (s.ty.ftype g.items) v)) ∧
     (names.length ≠ 1 →
-      Ctx.get (serviceResult s.ty.ftype names c2 s.var out) s.var =
-          some (Value.coerced s.ty.ftype (.ctx (outputCtx names c2))) ∧
+      Ctx.get (serviceResult (s.ty.ftype g.items) names c2 s.var out) s.var =
+          some (Value.coerced (s.ty.ftype g.items) (.ctx (outputCtx names c2))) ∧
       ∀ n, Ctx.get (outputCtx names c2) n = if n ∈ names then Ctx.get c2 n else none) := by
   obtain ⟨hn, hsome⟩ := outputLoop_spec ha _ _ s.output [] c1 names c2 (fun _ h => by simp at h) h3
   refine ⟨?_, by simpa using hn, hsome, ?_, ?_⟩
